@@ -196,6 +196,24 @@ pub fn mso_typed_case(ctx: &mut Ctx, name: &str, text: &str) {
     }
 }
 
+/// the two list kinds the crate holds as sets (allowed mods, banned addresses): a frame listing distinct entries in any order
+/// decodes and re-encodes to the identical bytes — the entries stay in wire order (set equality would not notice a reshuffle)
+pub fn set_order_case(ctx: &mut Ctx, compressed: bool, ty: u8, entries: &[u32]) {
+    ctx.oracle_eval("set-order");
+    let mut f = vec![0u8, ty, 1, entries.len() as u8, 0, 0, 0, 0];
+    for e in entries { f.extend_from_slice(&e.to_le_bytes()); }
+    f[0] = crate::conn::size_byte(compressed, f.len());
+    let op = format!("pkt.rt {}", frame_text(compressed, &f));
+    match real_decode(compressed, &f) {
+        Dec::Pkt(p, 0) => match real_encode(compressed, &p) {
+            Some(Ok(e)) if e == f => {},
+            other => ctx.violation(&format!("c01/reencode/set-order/{}", ty), "a list of distinct entries does not come back in wire order when the decoded packet is encoded again", &op, &hex(&f), &format!("{:?}", other.map(|r| r.map(|b| hex(&b))))),
+        },
+        Dec::Panic => ctx.violation(&format!("c01/decode-abort/{}", ty), "decoding a frame with in-domain field values aborted instead of returning the packet", &op, "a packet", "panic"),
+        _ => ctx.violation(&format!("c01/in-domain-rejected/{}", ty), "a frame with in-domain field values (one the encoder can produce) is refused by the decoder", &op, "a packet", "error"),
+    }
+}
+
 pub fn replay(ctx: &mut Ctx, ls: &Layouts, l: &str) -> bool {
     let w: Vec<&str> = l.split_whitespace().collect();
     match w.as_slice() {
@@ -204,7 +222,16 @@ pub fn replay(ctx: &mut Ctx, ls: &Layouts, l: &str) -> bool {
         ["mso.typed", n, t] => { mso_typed_case(ctx, &crate::text::from_cps(n), &crate::text::from_cps(t)); true },
         ["ver.rt", m, maj, min, pat] => { typed_version_case(ctx, *m == "c", f32::from_bits(maj.parse().unwrap_or(0)), char::from_u32(min.parse().unwrap_or(65)).unwrap_or('A'), pat.parse().ok()); true },
         ["txt.rt", m, kp, t] => { let (k, p) = kp.split_once('.').unwrap_or((kp, "")); typed_text_case(ctx, ls, *m == "c", k, p, &crate::text::from_cps(t)); true },
-        ["pkt.rt", m, h] => { rt_case(ctx, ls, *m == "c", &unhex(h), true); true },
+        ["pkt.rt", m, h] => {
+            let f = unhex(h);
+            rt_case(ctx, ls, *m == "c", &f, true);
+            if f.len() >= 8 && (f[1] == 65 || f[1] == 67) && (f.len() - 8) / 4 == f[3] as usize {
+                let es: Vec<u32> = f[8..].chunks(4).filter(|c| c.len() == 4).map(|c| u32::from_le_bytes([c[0], c[1], c[2], c[3]])).collect();
+                let mut d = es.clone(); d.sort(); d.dedup();
+                if d.len() == es.len() { set_order_case(ctx, *m == "c", f[1], &es); }
+            }
+            true
+        },
         ["pkt.dec", m, h] => { let _ = dec_case(ctx, ls, *m == "c", &unhex(h)); true },
         _ => false,
     }
@@ -327,6 +354,15 @@ pub fn run(ctx: &mut Ctx) {
             mso_rd_case(ctx, ts, &b);
         }
         ctx.exhaustive_domains.push("IS_MSO typed: 12 names x 11 texts through writer, reader and round trip; text starts off the character grid; 8 over-long messages; 11 wire forms x every text start; random wire forms".into());
+    }
+    // MAL / IPB: distinct entries in descending, mixed and ascending order
+    for compressed in [true, false] {
+        for ty in [65u8, 67] {
+            for entries in [vec![0xC0A8_0014u32, 0x0A00_0007, 0xAC10_0501], vec![3, 2, 1], vec![1, 2, 3], vec![0x0100_0000, 0x0000_0001, 0x0001_0000, 0x0000_0100], vec![0xFFFF_FFFF, 0, 0x8000_0000, 1],
+                            (0..40u32).rev().map(|i| 0x00AB_0000 + i * 7).collect::<Vec<_>>()] {
+                set_order_case(ctx, compressed, ty, &entries);
+            }
+        }
     }
     // … and a version packet built from a typed version
     for major in [0.7f32, 0.6, 0.5, 1.0, 0.04, 12.5] {
